@@ -356,10 +356,11 @@ def gen_case(rng, family, kind, shape_name, shape):
             fresh -= {q for g in init for q in g[1:]}
     n_callers = rng.choice([1, 2, 2, 3, 4]) if "B" in shape else 1
     callers = []
-    for _ in range(n_callers):
+
+    def gen_call(count):
         circuits, params = [], []
         ptypes = []
-        for _ in range(rng.choice([1, 1, 2, 3, 4]) if rng.random() < 0.97 else 0):
+        for _ in range(count):
             f = set(fresh)
             r = rng.random()
             npi = 0 if r < 0.25 else n_params      # a parameter-free circuit: its parameter vector is [] or ()
@@ -369,7 +370,22 @@ def gen_case(rng, family, kind, shape_name, shape):
                 circuits.append(gen_classical_gates(rng, n, f, npi) if family == "classical" else gen_random_gates(rng, n, npi))
             params.append([rng.randint(-2, 3) for _ in range(npi)] if family == "classical" else [rng.uniform(-PI, PI) for _ in range(npi)])
             ptypes.append(rng.choice(["list", "tuple"] + (["numpy", "numpy"] if npi else [])))
-        cl = {"circuits": circuits, "params": params, "ptypes": ptypes}
+        return {"circuits": circuits, "params": params, "ptypes": ptypes}
+
+    for _ in range(n_callers):
+        cl = gen_call(rng.choice([1, 1, 2, 3, 4]) if rng.random() < 0.97 else 0)
+        if n_callers == 1 and rng.random() < 0.45:
+            # the ONE evaluator / wrapper stack is used again: after a call whose primitive job failed (flaky backend), and
+            # with other circuit counts (1, then 5, then 1); every ordinary call must return its own objective
+            steps = []
+            if rng.random() < 0.65:
+                steps.append(dict(gen_call(rng.choice([1, 2, 3])), fail=True))
+            steps.append(gen_call(rng.choice([1, 2, 5])))
+            steps.append(gen_call(rng.choice([1, 1, 3])))
+            if rng.random() < 0.3:
+                steps.insert(rng.randrange(1, len(steps) + 1), dict(gen_call(rng.choice([1, 2])), fail=True))
+                steps.append(gen_call(rng.choice([1, 4])))
+            cl["sequence"] = steps
         if rng.random() < 0.35:
             cl["repeat"] = rng.choice([2, 3])        # the same list object is evaluated again: values repeat, the list is untouched
         if rng.random() < 0.15:
@@ -474,7 +490,7 @@ def run_impl(case, timeout=90.0):
         ce_module.measure_quasi_distributions = recording
     ce_module.measure_quasi_distributions.sink = quasi_sums
     thread_of = {}
-    repeat_mismatch, mutated = {}, {}
+    repeat_mismatch, mutated, sequence = {}, {}, {}
 
     sampler = kind != "est"
     raw = exactprims.ExactSampler(mode=case["sampler_mode"], observer=observer) if sampler else exactprims.ExactEstimator(observer=observer)
@@ -513,15 +529,23 @@ def run_impl(case, timeout=90.0):
             later = [(r, o) for r, o in enumerate(outs) if len(o) != len(outs[0]) or any(abs(a - b) > 1e-12 for a, b in zip(o, outs[0]))]
             if later:
                 repeat_mismatch[ci] = {"call": later[0][0] + 1, "first_call": outs[0], "that_call": later[0][1]}
+            for si, step in enumerate(cl.get("sequence", [])):
+                sc = [build_circuit(n, g, len(p), name=f"c{ci}_s{si}_{i}", metadata={"caller": ci}) for i, (g, p) in enumerate(zip(step["circuits"], step["params"]))]
+                sv = [param_container(angle_values(case, p), t) for p, t in zip(step["params"], step["ptypes"])]
+                if step.get("fail"):
+                    raw.fail_next = 1
+                try:
+                    sequence.setdefault(ci, []).append([float(x) for x in ev.evaluate_circuits(sc, sv)])
+                except Exception as e:
+                    sequence.setdefault(ci, []).append(("EXC", type(e).__name__, str(e)[:300]))
+                raw.fail_next = 0
             if len(circuits) != len(originals) or any(a is not b for a, b in zip(circuits, originals)):
                 mutated[ci] = {"length_before": len(originals), "length_after": len(circuits),
                                "replaced_positions": [i for i, (a, b) in enumerate(zip(circuits, originals)) if a is not b]}
         except Exception as e:  # turned into a violation by the caller
             results[ci] = ("EXC", type(e).__name__, str(e)[:300])
 
-    if len(case["callers"]) == 1:
-        call(0)
-    else:
+    if True:  # also a single caller runs in its own thread: a wrapper that hangs must not hang the check
         ths = [threading.Thread(target=call, args=(ci,), daemon=True) for ci in range(len(case["callers"]))]
         for t in ths:
             t.start()
@@ -531,19 +555,19 @@ def run_impl(case, timeout=90.0):
             if t.is_alive():
                 results[ci] = ("EXC", "Hang", f"evaluate_circuits did not return within {timeout}s")
     ce_module.measure_quasi_distributions.sink = None
-    extra = {"repeat_mismatch": repeat_mismatch, "mutated": mutated, "pub_shots": pub_shots, "quasi_sums": {ci: quasi_sums.get(t, []) for ci, t in thread_of.items()}}
+    extra = {"sequence": sequence, "repeat_mismatch": repeat_mismatch, "mutated": mutated, "pub_shots": pub_shots, "quasi_sums": {ci: quasi_sums.get(t, []) for ci, t in thread_of.items()}}
     return results, batches, extra
 
 
 # ----------------------------------------------------------------------------------------------- oracle
-def oracle_values(case, ci):
+def oracle_values(case, ci, step=None):
     """Exact objective of every (circuit, parameters) of caller ci, with the tolerance the comparison may use."""
     from qiskit.quantum_info import Statevector
 
     n, npar = case["n"], case["n_params"]
     c = cfg(case, ci)
     kind, objective = c["kind"], c["objective"]
-    cl = case["callers"][ci]
+    cl = case["callers"][ci] if step is None else step
     init = build_circuit(n, case["init"], 0) if case["init"] is not None else None
     out = []
     for gates, params in zip(cl["circuits"], cl["params"]):
@@ -717,6 +741,29 @@ def do_case(ctx, case, want_gallina=True):
                           f"through {case['stack_name']} the distribution caller {c} aggregates sums to {bad[0]!r}, not 1 (shots requested {cfg(case, c)['shots']}; "
                           f"callers' shots: {[cfg(case, k)['shots'] for k in range(len(case['callers']))]})", describe(case, c, 0), detail={"sums": sums})
             break
+    for ci, outcomes in extra["sequence"].items():
+        steps = case["callers"][ci]["sequence"]
+        kind_ci = cfg(case, ci)["kind"]
+        failed_before = False
+        for si, (step, got) in enumerate(zip(steps, outcomes)):
+            if step.get("fail"):
+                failed_before = True
+                if not isinstance(got, tuple):
+                    ctx.violation("oracle", f"{kind_ci}:{case['stack_name']}:failed-job-returned-values",
+                                  f"the primitive job of call {si + 2} failed, yet evaluate_circuits returned {got} through {case['stack_name']}", describe(case, ci, 0))
+                continue
+            when = "after a call whose primitive job failed" if failed_before else "on the reused evaluator"
+            key = f"{kind_ci}:{case['stack_name']}:" + ("after-failed-call" if failed_before else "reused-evaluator")
+            if isinstance(got, tuple):
+                ctx.violation("oracle", key + "-" + got[1], f"call {si + 2} {when} raised {got[1]} ({got[2]}) through {case['stack_name']}", describe(case, ci, 0), detail={"sequence": outcomes})
+                break
+            want = oracle_values(case, ci, step)
+            if len(got) != len(want) or any(not (abs(g - w) <= tol) for g, (w, tol) in zip(got, want)):
+                ctx.violation("oracle", key,
+                              f"call {si + 2} on the same {kind_ci} evaluator through {case['stack_name']}, {when}, returned {got}; the objectives of ITS circuits are {[w for w, _ in want]} "
+                              f"(circuit counts of the calls so far: {[len(case['callers'][ci]['circuits'])] + [len(s_['circuits']) for s_ in steps[: si + 1]]})",
+                              describe(case, ci, 0), detail={"sequence": outcomes, "steps": steps})
+                break
     for ci, m in extra["repeat_mismatch"].items():
         ctx.violation("oracle", f"{cfg(case, ci)['kind']}:repeated-call",
                       f"call {m['call']} of evaluate_circuits on the SAME circuit list returned {m['that_call']}, the first call returned {m['first_call']} "
@@ -880,6 +927,9 @@ def run(ctx):
                 ctx.tally("paramvector:" + ("empty-" if not p_ else "") + t)
                 if not g:
                     ctx.tally("circuit:gate-free")
+            if cl.get("sequence"):
+                ctx.tally("reused-evaluator-sequence:" + ("with-failed-job" if any(s_.get("fail") for s_ in cl["sequence"]) else "ordinary-only"))
+                ctx.tally("reused-evaluator-sequence:calls", 1 + len(cl["sequence"]))
             if cl.get("repeat", 1) > 1:
                 ctx.tally("same-list-evaluated-again:" + ("with-initial-state" if case["init"] is not None else "no-initial-state"))
             if cl.get("container") == "tuple":
